@@ -14,15 +14,18 @@ EXTENDS Muxide, BoxTree, BoxLayout, Json, IOUtils
 Rec == ndJsonDeserialize(IOEnv.TRACE)
 
 VARIABLES l,      \* index of the next event
-          inst    \* id of the current instance
+          inst,   \* id of the current instance
+          sk      \* sink protocol monitor (MuxideSink): [failed, delivered, flen, seen]
 
-tvars == << cfg, phase, v, a, clockV, clockA, shadow, sunk, res, l, inst >>
+tvars == << cfg, phase, v, a, clockV, clockA, shadow, sunk, res, l, inst, sk >>
+
+Sk0 == [failed |-> FALSE, delivered |-> 0, flen |-> 0, seen |-> FALSE]
 
 SigLine(i, n, s) == PrintT("SIG|" \o ToString(i) \o "|" \o ToString(n) \o "|" \o ToString(s))
 Emit(S) == \A s \in S : SigLine(inst, l, s)
 Has(r, f) == f \in DOMAIN r
 
-TInit == /\ l = 1 /\ inst = 0
+TInit == /\ l = 1 /\ inst = 0 /\ sk = Sk0
          /\ cfg = [vc |-> "h264", ac |-> "none", mode |-> "third", w32 |-> 0, i32 |-> 0, w32dur |-> 0, rate |-> 1]
          /\ phase = "gone" /\ v = << >> /\ a = << >> /\ clockV = 0 /\ clockA = 0
          /\ shadow = [firstV |-> None] /\ sunk = 0 /\ res = [ok |-> TRUE, variant |-> ""]
@@ -30,7 +33,7 @@ TInit == /\ l = 1 /\ inst = 0
 IsEv(e) == l <= Len(Rec) /\ Rec[l].ev = e
 
 TNew == /\ IsEv("new")
-        /\ l' = l + 1 /\ inst' = Rec[l].i
+        /\ l' = l + 1 /\ inst' = Rec[l].i /\ sk' = Sk0
         /\ cfg' = Rec[l].cfg
         /\ phase' = "open" /\ v' = << >> /\ a' = << >> /\ clockV' = 0 /\ clockA' = 0
         /\ shadow' = [firstV |-> None] /\ sunk' = 0 /\ res' = [ok |-> TRUE, variant |-> ""]
@@ -56,7 +59,7 @@ SinkQuiet(c, e) ==
     ELSE {Sig("C06", IF phase = "open" THEN "NothingBeforeFinish" ELSE "NothingAfter", c.op, "sink-write")}
 
 TWrite == /\ IsEv("call")
-          /\ l' = l + 1 /\ inst' = inst
+          /\ l' = l + 1 /\ inst' = inst /\ sk' = sk
           /\ LET e == Rec[l] IN
              /\ Emit(LegalSigs(e, e) \cup TotalSigs(e, e) \cup SinkQuiet(e, e))
              /\ DoWrite(e, e.ok, e.var)
@@ -85,7 +88,8 @@ FileSigs(F) ==
 
 FinishSigs(c, e) ==
     LET wrote == e.sa - e.sb IN
-         LegalSigs(c, e) \cup TotalSigs(c, e)
+         (IF sk.failed /\ ~e.ok /\ e.var = "Io" THEN {} ELSE LegalSigs(c, e))   \* an Io error is legal when the sink failed (C13)
+    \cup TotalSigs(c, e)
     \cup (IF e.ok THEN
               (IF phase # "open" \/ e.sb # 0 THEN {Sig("C06", "WrittenOnce", c.how, "again")} ELSE {})
               \cup (IF Has(e, "stats") THEN C06Stats(e.stats, wrote) ELSE {})
@@ -96,10 +100,34 @@ FinishSigs(c, e) ==
           ELSE IF Crashed(e) THEN {}
           ELSE IF wrote # 0 /\ e.var # "Io" THEN {Sig("C06", "NothingAfter", c.how, "sink-write")} ELSE {})
 
+(* ---- C13: one write() call on the caller's sink, answered by the fault script ---- *)
+SinkWriteSigs(e) ==
+         (IF e.common # e.delivered THEN {Sig("C13", "PrefixAlways", "sink", "not-a-prefix")} ELSE {})
+    \cup (IF e.delivered > e.flen THEN {Sig("C13", "PrefixAlways", "sink", "more-than-file")} ELSE {})
+    \cup (IF sk.failed THEN {Sig("C13", "SilentAfterFailure", "sink", "write-after-failure")} ELSE {})
+    \cup (IF phase # "open" /\ ~sk.failed THEN {Sig("C13", "SilentAfterFailure", "sink", "write-after-finish")} ELSE {})
+
+TSinkWrite == /\ IsEv("sw")
+              /\ l' = l + 1 /\ inst' = inst
+              /\ LET e == Rec[l] IN
+                 /\ Emit(SinkWriteSigs(e))
+                 /\ sk' = [failed |-> sk.failed \/ e.resp \in {"zero", "fail"}, delivered |-> e.delivered, flen |-> e.flen, seen |-> TRUE]
+              /\ UNCHANGED << cfg, phase, v, a, clockV, clockA, shadow, sunk, res >>
+
+SinkFinishSigs(c, e) ==
+    IF ~Has(e, "flen") \/ Crashed(e) \/ phase # "open" THEN {}
+    ELSE (IF e.ok /\ sk.failed THEN {Sig("C13", "ErrIffFailed", c.how, "ok-despite-failure")} ELSE {})
+    \cup (IF ~e.ok /\ ~sk.failed THEN {Sig("C13", "ErrIffFailed", c.how, << "error-without-failure", e.var >>)} ELSE {})
+    \cup (IF ~e.ok /\ sk.failed /\ e.var # "Io" THEN {Sig("C13", "ErrIffFailed", c.how, << "wrong-error", e.var >>)} ELSE {})
+    \cup (IF ~sk.failed /\ e.ok /\ (e.sa - e.sb # e.flen \/ ~e.same_as_clean)
+          THEN {Sig("C13", "ShortWritesHarmless", c.how, "delivered-differs")} ELSE {})
+    \cup (IF ~sk.failed /\ e.ok /\ Has(e, "stats") /\ e.stats.bytes # e.flen
+          THEN {Sig("C13", "ShortWritesHarmless", c.how, "byte-count")} ELSE {})
+
 TFin == /\ IsEv("fin")
-        /\ l' = l + 1 /\ inst' = inst
+        /\ l' = l + 1 /\ inst' = inst /\ sk' = sk
         /\ LET e == Rec[l]  c == [op |-> "fin", how |-> e.how] IN
-           /\ Emit(FinishSigs(c, e))
+           /\ Emit(FinishSigs(c, e) \cup SinkFinishSigs(c, e))
            /\ DoFinish(c, e.ok, e.var, e.sa - e.sb)
 
 (* ---- comparison of two instances' outputs, logged as facts by the harness ---- *)
@@ -128,9 +156,9 @@ PairSigs(e) ==
 TPair == /\ IsEv("pair")
          /\ l' = l + 1 /\ inst' = Rec[l].i
          /\ LET e == Rec[l] IN \A s \in PairSigs(e) : SigLine(e.i, l, s)
-         /\ UNCHANGED << cfg, phase, v, a, clockV, clockA, shadow, sunk, res >>
+         /\ UNCHANGED << cfg, phase, v, a, clockV, clockA, shadow, sunk, res, sk >>
 
-TNext == TNew \/ TWrite \/ TFin \/ TPair
+TNext == TNew \/ TWrite \/ TFin \/ TPair \/ TSinkWrite
 
 TSpec == TInit /\ [][TNext]_tvars
 
